@@ -193,6 +193,8 @@ def run(ctx):
     from props import c08 as _c08
     ctx.run_rule('C11.3f', 'T6', 'the reply types are declared and decoded with the types of the schema (a string is a validated String, never raw bytes)', _c08.r_schema_encoders, prog, ctx.repo)
     ctx.run_rule('C11.4b', 'T10', 'a collection decoder reads exactly the announced number of elements (a truncated sequence fails, it is not shortened)', codec.r_element_count_is_announced, prog)
+    from props import c18 as _c18
+    ctx.run_rule('C11.10', 'T2', 'a generator reply is consumed completely or refused (left-over bytes are an error)', _c18.r_reply_consumed_completely, prog)
     ctx.run_rule('C11.4', 'T10', 'announced lengths reach reservations only bounded by remaining()', codec.r_announced_sizes, prog)
     ctx.run_rule('C11.5', 'T1', 'reply decode errors are values: propagated, converted, never unwrapped', r_reply_errors_are_values, prog)
     ctx.run_rule('C11.6', 'T2', 'a failed read leaves the source untouched; peeks never consume', codec.r_failure_leaves_no_trace, prog)
